@@ -167,7 +167,10 @@ var hdrTypes = []enums.OpenconfigAftTypesEncapsulationHeaderType{
 // nhPayload builds a next-hop payload from the fields the fluent builders can set.
 func (g *gen) nhPayload(index uint64) *aftpb.Afts_NextHopKey {
 	mk := g.mark()
-	nh := &aftpb.Afts_NextHop{IpAddress: sv(fmt.Sprintf("10.%d.%d.%d", (mk>>16)&0xff, (mk>>8)&0xff, mk&0xff))}
+	nh := &aftpb.Afts_NextHop{}
+	if g.chance(5, 6) {
+		nh.IpAddress = sv(fmt.Sprintf("10.%d.%d.%d", (mk>>16)&0xff, (mk>>8)&0xff, mk&0xff))
+	}
 	if g.chance(1, 3) {
 		nh.MacAddress = sv(fmt.Sprintf("02:00:00:%02x:%02x:%02x", (mk>>16)&0xff, (mk>>8)&0xff, mk&0xff))
 	}
@@ -242,9 +245,14 @@ func (g *gen) nhgPayload(id uint64) *aftpb.Afts_NextHopGroupKey {
 	return &aftpb.Afts_NextHopGroupKey{Id: id, NextHopGroup: grp}
 }
 
-func (g *gen) meta() []byte {
+// meta returns entry metadata carrying a unique marker - or nothing: every
+// field must also be exercised absent.
+func (g *gen) meta() *wpb.BytesValue {
+	if g.chance(2, 5) {
+		return nil
+	}
 	mk := g.mark()
-	return []byte{byte(mk >> 24), byte(mk >> 16), byte(mk >> 8), byte(mk)}
+	return &wpb.BytesValue{Value: []byte{byte(mk >> 24), byte(mk >> 16), byte(mk >> 8), byte(mk)}}
 }
 
 func (g *gen) nhgRef(own string) (*wpb.UintValue, *wpb.StringValue) {
@@ -269,14 +277,14 @@ func (g *gen) entry(op spb.AFTOperation_Operation, kind Kind, ni string) *spb.AF
 	case KV4:
 		id, nin := g.nhgRef(ni)
 		o.Entry = &spb.AFTOperation_Ipv4{Ipv4: &aftpb.Afts_Ipv4EntryKey{Prefix: v4Prefixes[g.pick(len(v4Prefixes))],
-			Ipv4Entry: &aftpb.Afts_Ipv4Entry{NextHopGroup: id, NextHopGroupNetworkInstance: nin, EntryMetadata: &wpb.BytesValue{Value: g.meta()}}}}
+			Ipv4Entry: &aftpb.Afts_Ipv4Entry{NextHopGroup: id, NextHopGroupNetworkInstance: nin, EntryMetadata: g.meta()}}}
 	case KV6:
 		id, nin := g.nhgRef(ni)
 		o.Entry = &spb.AFTOperation_Ipv6{Ipv6: &aftpb.Afts_Ipv6EntryKey{Prefix: v6Prefixes[g.pick(len(v6Prefixes))],
-			Ipv6Entry: &aftpb.Afts_Ipv6Entry{NextHopGroup: id, NextHopGroupNetworkInstance: nin, EntryMetadata: &wpb.BytesValue{Value: g.meta()}}}}
+			Ipv6Entry: &aftpb.Afts_Ipv6Entry{NextHopGroup: id, NextHopGroupNetworkInstance: nin, EntryMetadata: g.meta()}}}
 	case KMPLS:
 		id, nin := g.nhgRef(ni)
-		le := &aftpb.Afts_LabelEntry{NextHopGroup: id, NextHopGroupNetworkInstance: nin, EntryMetadata: &wpb.BytesValue{Value: g.meta()}}
+		le := &aftpb.Afts_LabelEntry{NextHopGroup: id, NextHopGroupNetworkInstance: nin, EntryMetadata: g.meta()}
 		if g.chance(1, 3) {
 			for i := 0; i <= g.pick(2); i++ {
 				le.PoppedMplsLabelStack = append(le.PoppedMplsLabelStack, &aftpb.Afts_LabelEntry_PoppedMplsLabelStackUnion{PoppedMplsLabelStackUint64: uint64(100 + g.pick(50))})
